@@ -28,6 +28,7 @@ import (
 	"os"
 	"path/filepath"
 	"sort"
+	"strconv"
 	"strings"
 	"sync"
 	"time"
@@ -783,6 +784,9 @@ func runC36(c *fw.Ctx) {
 				if only != "" && !strings.Contains(i36DagName(d, ts), only) {
 					continue
 				}
+				if os.Getenv("C36_MIN3") != "" && n < 3 { // debugging aid: only the 3+-commit DAGs
+					continue
+				}
 				bds = append(bds, bd{d, ts})
 			}
 		}
@@ -879,6 +883,9 @@ func runC36(c *fw.Ctx) {
 
 	c.ParDo(len(units), 0, func(ui int) {
 		u := units[ui]
+		if from, _ := strconv.Atoi(os.Getenv("C36_FROM")); ui < from { // debugging aid: resume a cut run
+			return
+		}
 		if r.expired() {
 			return
 		}
